@@ -9,13 +9,16 @@ Model of the two line-based input-template editors (C19):
 (the CP2K section-tree editor lives in Model/TemplateCp2k.lean).
 
 `modifyInput` / `writeForRun` mirror the code as it is NOW, i.e. after the repairs eaf64e1
-(`_modify_input`) and f746fff (`write_for_run`) in /repo; the definitions with suffix `AsIs`
-mirror the code before these repairs and are kept as the record of the two findings.
+(`_modify_input`), f746fff and 48a6c1e (`write_for_run`) in /repo; the definitions with suffix
+`AsIs` mirror the code before eaf64e1 / f746fff, the definitions with suffix `Sub` mirror
+`write_for_run` between f746fff and 48a6c1e (substring `str.replace`); both are kept as the RECORD
+of the findings.
 
 Text is `List Char` (`Str`), a file is one `Str`; Python's text-mode line iteration is
 `linesKeep` (split after every '\n', terminators kept; assumption: no '\r' in the templates,
-so universal-newline translation is the identity).  `str.strip/split` are modelled for the
-ASCII white-space characters (assumption: ASCII templates).  Settings are Python dicts in
+so universal-newline translation is the identity).  `str.strip/split` and the regular-expression
+class `\S` use `isSpace` = Python's `str.isspace` on single characters (all 29 code points,
+ASCII and non-ASCII: the three agree in CPython, `Py_UNICODE_ISSPACE`).  Settings are Python dicts in
 insertion order: association lists with distinct keys, values already `str()`-ed by the caller.
 The delimiter is the character '=' (the only one the engines use; `delim` is interpolated into
 a regular expression by the code, which is outside the model for other delimiters).
@@ -25,10 +28,16 @@ namespace Infretis.Template
 abbrev Str := List Char
 abbrev Settings := List (Str × Str)
 
-/-- ASCII part of Python's `str.isspace` -/
+/-- Python's `str.isspace` on one character (= what `str.split()`, `str.strip()` and the regular
+    expression classes `\s` / `\S` of a `str` pattern use): U+0009–000D, 001C–001F, 0020, 0085,
+    00A0, 1680, 2000–200A, 2028, 2029, 202F, 205F, 3000 -/
 def isSpace (c : Char) : Bool :=
   c = ' ' || c = '\t' || c = '\n' || c = '\r' || c = '\x0b' || c = '\x0c' ||
-  c = '\x1c' || c = '\x1d' || c = '\x1e' || c = '\x1f'
+  c = '\x1c' || c = '\x1d' || c = '\x1e' || c = '\x1f' ||
+  c = '\u0085' || c = '\u00a0' || c = '\u1680' ||
+  c = '\u2000' || c = '\u2001' || c = '\u2002' || c = '\u2003' || c = '\u2004' || c = '\u2005' ||
+  c = '\u2006' || c = '\u2007' || c = '\u2008' || c = '\u2009' || c = '\u200a' ||
+  c = '\u2028' || c = '\u2029' || c = '\u202f' || c = '\u205f' || c = '\u3000'
 
 def lstrip : Str → Str
   | [] => []
@@ -179,8 +188,8 @@ def wfrLinesAsIs (s : Settings) : List Str → List Str → List Str → WfrResu
 
 def writeForRunAsIs (s : Settings) (text : Str) : WfrResult := wfrLinesAsIs s (linesKeep text) (keys s) []
 
-/-- what a line becomes when nothing raises: each variable that is a token of the original
-    line is substring-replaced, in dict order -/
+/-- RECORD (code before 48a6c1e) — what a line became when nothing raised: each variable that is a
+    token of the original line is substring-replaced, in dict order -/
 def substLine (spl : List Str) : Settings → Str → Str
   | [], line => line
   | (var, val) :: rest, line =>
@@ -197,7 +206,8 @@ the tie can name a regression of either repair by its old signature.
   * `_modify_input` (eaf64e1): `to_write` holds the last piece written; before an appended
     setting a "\n" is written when that piece is non-empty and does not end with "\n"
     (only the first appended setting can meet this: an appended line ends with "\n").
-  * `write_for_run` (f746fff): `not_found.pop(var, None)` — no KeyError any more. -/
+  * `write_for_run` (f746fff): `not_found.pop(var, None)` — no KeyError any more (`…Sub`);
+    (48a6c1e): the replacement is by whole words (`wfrVars`/`wfrLines`/`writeForRun` further down). -/
 
 /-- `to_write and not to_write.endswith("\n")` for the last piece written by the line loop
     (`to_write = ""` when the template is empty) -/
@@ -216,11 +226,60 @@ def modifyLines (s : Settings) (lines : List Str) : List Str :=
 /-- `_modify_input(source, output, settings, delim="=")` as a function on file contents -/
 def modifyInput (s : Settings) (text : Str) : Str := (modifyLines s (linesKeep text)).flatten
 
-/-- the inner `for var in input_settings.keys()` loop on one line; `not_found.pop(var, None)` -/
+/-- RECORD (code between f746fff and 48a6c1e): the inner loop on one line with `not_found.pop(var, None)` and
+    the substring replacement `line.replace(var, value)` -/
+def wfrVarsSub (spl : List Str) : Settings → Str → List Str → Str × List Str
+  | [], line, nf => (line, nf)
+  | (var, val) :: rest, line, nf =>
+    if var ∈ spl then wfrVarsSub spl rest (replaceAll var val line) (nf.erase var)
+    else wfrVarsSub spl rest line nf
+
+def wfrLinesSub (s : Settings) : List Str → List Str → List Str → WfrResult
+  | [], nf, acc => { written := acc.reverse, err := if nf.isEmpty then none else some .value }
+  | line :: t, nf, acc =>
+    let r := wfrVarsSub (splitWS line) s line nf
+    wfrLinesSub s t r.2 (r.1 :: acc)
+
+def writeForRunSub (s : Settings) (text : Str) : WfrResult := wfrLinesSub s (linesKeep text) (keys s) []
+
+/-! ### `write_for_run` as it is now (after 48a6c1e): whole-word replacement
+
+    value = str(input_settings[var])
+    line = re.sub(r"(?<!\S)" + re.escape(var) + r"(?!\S)", lambda _m, value=value: value, line)
+
+still inside `if var in spl` (`spl = line.split()` computed once, on the ORIGINAL line), variables in
+dict order, every substitution on the CURRENT line, `not_found.pop(var, None)`.  The replacement is a
+function, so the value is inserted literally (no back-reference expansion); `re.escape` makes the
+variable a literal. -/
+
+/-- `(?!\S)` at the start of the remaining text: nothing follows, or a white-space character -/
+def boundaryAt : Str → Bool
+  | [] => true
+  | c :: _ => isSpace c
+
+/-- `re.sub(r"(?<!\S)" + re.escape(var) + r"(?!\S)", value, line)` for non-empty `var`: scan left to
+    right; `b` = the previous character is absent or white space (`(?<!\S)`); where `b` holds, `var` is a
+    prefix of the rest and the character after it is absent or white space, emit `val` and skip `var`
+    (`skip` = characters of the match still to be dropped), else copy the character.  (The flag is the
+    last argument, bound by `fun`, so that it is no discriminant of the pattern match.)  Matches do not
+    overlap and the inserted value is not scanned again. -/
+def reSubGo (var val : Str) : Nat → Str → Bool → Str
+  | _, [] => fun _ => []
+  | skip + 1, c :: t => fun _ => reSubGo var val skip t (isSpace c)
+  | 0, c :: t => fun b =>
+    if b && var.isPrefixOf (c :: t) && boundaryAt ((c :: t).drop var.length) then
+      val ++ reSubGo var val (var.length - 1) t (isSpace c)
+    else c :: reSubGo var val 0 t (isSpace c)
+
+/-- the whole-word replacement on one line (`var` non-empty: it is a token of `split()`; for the empty
+    pattern, never reached, Python would insert at every empty word position) -/
+def reSubWord (var val line : Str) : Str := reSubGo var val 0 line true
+
+/-- the inner `for var in input_settings.keys()` loop on one line; `spl` are the tokens of the ORIGINAL line -/
 def wfrVars (spl : List Str) : Settings → Str → List Str → Str × List Str
   | [], line, nf => (line, nf)
   | (var, val) :: rest, line, nf =>
-    if var ∈ spl then wfrVars spl rest (replaceAll var val line) (nf.erase var)
+    if var ∈ spl then wfrVars spl rest (reSubWord var val line) (nf.erase var)
     else wfrVars spl rest line nf
 
 def wfrLines (s : Settings) : List Str → List Str → List Str → WfrResult
@@ -230,6 +289,21 @@ def wfrLines (s : Settings) : List Str → List Str → List Str → WfrResult
     wfrLines s t r.2 (r.1 :: acc)
 
 def writeForRun (s : Settings) (text : Str) : WfrResult := wfrLines s (linesKeep text) (keys s) []
+
+/-- what a line becomes: each variable that is a word of the original line is whole-word replaced on the
+    current line, in dict order -/
+def substLineW (spl : List Str) : Settings → Str → Str
+  | [], line => line
+  | (var, val) :: rest, line =>
+    if var ∈ spl then substLineW spl rest (reSubWord var val line) else substLineW spl rest line
+
+/-- the per-line function of `write_for_run` -/
+def substOfW (s : Settings) (l : Str) : Str := substLineW (splitWS l) s l
+
+/-- the successive whole-word replacements of a list of variables on a piece of text -/
+def chain : Settings → Str → Str
+  | [], t => t
+  | (k, v) :: r, t => chain r (reSubWord k v t)
 
 /-! ### word-by-word specification of `write_for_run` (what "changes exactly the requested entries" means)
 
@@ -275,7 +349,31 @@ open Infretis.Proto
 def toStr (s : String) : Str := s.toList
 def ofStr (s : Str) : String := String.ofList s
 
-def parseStr? (t : String) : Option Str := (unhexStr t).map toStr
+/-- code points as groups of six hex digits (token `U…`, for text with characters above U+00FF) -/
+def parseWide : List Char → Option Str
+  | [] => some []
+  | a :: b :: c :: d :: e :: f :: t =>
+    match hexDigit a, hexDigit b, hexDigit c, hexDigit d, hexDigit e, hexDigit f, parseWide t with
+    | some a, some b, some c, some d, some e, some f, some r =>
+      some (Char.ofNat (((((a * 16 + b) * 16 + c) * 16 + d) * 16 + e) * 16 + f) :: r)
+    | _, _, _, _, _, _, _ => none
+  | _ => none
+
+/-- a text token: hex of the Latin-1 bytes (one byte = one character; `-` = empty), or `U` followed by
+    six hex digits per code point -/
+def parseStr? (t : String) : Option Str :=
+  match t.toList with
+  | 'U' :: r => parseWide r
+  | _ => (unhexStr t).map toStr
+
+def hex6 (n : Nat) : List Char :=
+  [hexOfNibble (n / 1048576 % 16), hexOfNibble (n / 65536 % 16), hexOfNibble (n / 4096 % 16),
+   hexOfNibble (n / 256 % 16), hexOfNibble (n / 16 % 16), hexOfNibble (n % 16)]
+
+/-- answer token for a text: Latin-1 hex when every character is below U+0100, else the `U` form -/
+def showStr (s : Str) : String :=
+  if s.all (fun c => c.toNat < 256) then hexStr (ofStr s)
+  else String.ofList ('U' :: s.flatMap (fun c => hex6 c.toNat))
 
 /-- settings: `n k₁ v₁ … kₙ vₙ` (hex strings) -/
 def takeSettings : List String → Option (Settings × List String)
@@ -296,7 +394,7 @@ def takeSettings : List String → Option (Settings × List String)
         (go k rest).map (fun s => (s, rest.drop (2 * k)))
 
 def showSettings (d : Settings) : String :=
-  toString d.length ++ d.foldl (fun acc kv => acc ++ " " ++ hexStr (ofStr kv.1) ++ " " ++ hexStr (ofStr kv.2)) ""
+  toString d.length ++ d.foldl (fun acc kv => acc ++ " " ++ showStr kv.1 ++ " " ++ showStr kv.2) ""
 
 def showErr : Option Err → String
   | none => "ok" | some .key => "err:key" | some .value => "err:value"
@@ -305,17 +403,17 @@ def handle (toks : List String) : Option String :=
   match toks with
   | "mdpmodify" :: t :: rest =>
     match parseStr? t, takeSettings rest with
-    | some t, some (s, []) => some (hexStr (ofStr (modifyInput s t)))
+    | some t, some (s, []) => some (showStr (modifyInput s t))
     | _, _ => some "bad-op"
   | "mdpmodifyA" :: t :: rest =>
     match parseStr? t, takeSettings rest with
-    | some t, some (s, []) => some (hexStr (ofStr (modifyInputAsIs s t)))
+    | some t, some (s, []) => some (showStr (modifyInputAsIs s t))
     | _, _ => some "bad-op"
   | "wfrA" :: t :: rest =>
     match parseStr? t, takeSettings rest with
     | some t, some (s, []) =>
       let r := writeForRunAsIs s t
-      some (showErr r.err ++ " " ++ hexStr (ofStr r.written.flatten))
+      some (showErr r.err ++ " " ++ showStr r.written.flatten)
     | _, _ => some "bad-op"
   | ["mdpread", t] =>
     match parseStr? t with
@@ -325,15 +423,21 @@ def handle (toks : List String) : Option String :=
     match parseStr? t, takeSettings rest with
     | some t, some (s, []) =>
       let r := writeForRun s t
-      some (showErr r.err ++ " " ++ hexStr (ofStr r.written.flatten))
+      some (showErr r.err ++ " " ++ showStr r.written.flatten)
+    | _, _ => some "bad-op"
+  | "wfrS" :: t :: rest =>
+    match parseStr? t, takeSettings rest with
+    | some t, some (s, []) =>
+      let r := writeForRunSub s t
+      some (showErr r.err ++ " " ++ showStr r.written.flatten)
     | _, _ => some "bad-op"
   | "wfrwords" :: t :: rest =>
     match parseStr? t, takeSettings rest with
-    | some t, some (s, []) => some (hexStr (ofStr (wordsText s t)))
+    | some t, some (s, []) => some (showStr (wordsText s t))
     | _, _ => some "bad-op"
   | ["splitws", t] =>
     match parseStr? t with
-    | some t => some (showList (fun x => hexStr (ofStr x)) (splitWS t))
+    | some t => some (showList showStr (splitWS t))
     | none => some "bad-op"
   | _ => none
 
